@@ -97,14 +97,40 @@ def full_pcfg(pcfg: dict) -> dict:
 
 
 def split_calls(events: list[dict]) -> list[list[dict]]:
+    """-> policy calls ([pstart, ...]) and, between them, direct breaker operations ([ext])"""
     calls, cur = [], None
     for e in events:
         if e["e"] == "pstart":
             cur = [e]
             calls.append(cur)
+        elif e["e"] == "ext":
+            calls.append([e])
+            cur = None
         elif cur is not None:
             cur.append(e)
     return calls
+
+
+def direct_breaker_op(env, e: dict) -> None:
+    """another user of the shared breaker calls it directly; logged as one `ext` event"""
+    gap = e["at"] - env.clock.now
+    if gap > 0:
+        env.clock.advance(gap)
+    b = env.breaker
+    n0 = len(env.trace)
+    if e["op"] == "allow":
+        b.allow()
+    elif e["op"] == "ok":
+        b.record_success()
+    elif e["op"] == "fail":
+        b.record_failure(env._ec(e["k"]))
+    else:
+        b.record_cancel()
+    logged = env.trace[n0:]
+    del env.trace[n0:]
+    x = logged[-1]
+    env.trace.append({"e": "ext", "op": e["op"], "k": e["k"], "allowed": x.get("allowed", True),
+                      "ev": x["ev"], "state": x["state"], "at": x["at"]})
 
 
 def run_policy_scenario(pcfg: dict, events: list[dict], *, entry: str = "Policy", perm=None,
@@ -136,8 +162,13 @@ def run_policy_scenario(pcfg: dict, events: list[dict], *, entry: str = "Policy"
         if hooks or pcfg["rc"].get("hooks"):
             call.update(on_attempt_start=env.astart, on_attempt_end=env.aend)
         pol = (rp.AsyncPolicy if is_async else rp.Policy)(retry=retry, circuit_breaker=env.breaker)
-        for ci, callev in enumerate(split_calls(events)):
+        ci = -1
+        for callev in split_calls(events):
             start = callev[0]
+            if start["e"] == "ext":
+                direct_breaker_op(env, start)
+                continue
+            ci += 1
             gap = start["at"] - env.clock.now
             if gap > 0:
                 env.clock.advance(gap)
